@@ -1252,6 +1252,8 @@ def handle(ctx, case, batch):
         kinds = ''.join(l['kind'][0] for l in case['layers'])
         ctx.count('atmos:layers %s' % ('all finite' if 'i' not in kinds else 'all infinite' if 'f' not in kinds else 'mixed'))
         ctx.count('atmos:%d layers' % len(kinds))
+        for m in case.get('motifs', []):
+            ctx.count('atmos:stale-clock motif %s' % m)
         for k, n in counts.items():
             ctx.count(k, n)
         for key, what in bad:
@@ -1377,6 +1379,8 @@ def run(ctx):
     cases += [copy.deepcopy(c) for c in c15_atmos.DIRECTED]
     for i in range(ctx.scale(30, 400)):
         cases.append(c15_atmos.gen_atmos_case(ctx.rng, big and i % 3 == 0))
+    for i in range(ctx.scale(24, 300)):
+        cases.append(c15_atmos.gen_stale_case(ctx.rng, big and i % 3 == 0))
     batch = []
     for case in cases:
         handle(ctx, case, batch)
